@@ -47,6 +47,7 @@ func c04tokCmd(args []string) {
 			None   float64
 			Year   int
 			Nslots int
+			Preco  string // folder with preco.txt: CorrectionPrecipitation on
 		}
 		if err := json.Unmarshal(sc.Bytes(), &c); err != nil {
 			panic(err)
@@ -63,6 +64,10 @@ func c04tokCmd(args []string) {
 			cfg.WeatherNumHeader = c.Nh
 			cfg.WeatherNoneValue = c.None
 			hp := hermes.HFilePath{}
+			if c.Preco != "" {
+				g.PRECO = true
+				hp.SetPreCorrFolder(c.Preco)
+			}
 			n := c.Nslots
 			if c.Layout == 0 {
 				n = 1
